@@ -120,6 +120,77 @@ theorem checked_overflow (op : IntI) (z : Int) (h : z < I64.minVal ∨ I64.maxVa
     · right; omega
   simp [I64.checked, this]
 
+open I64 in
+theorem two_pow_le_natAbs_pow (x : Int) (y : Nat) (hx : 2 ≤ x.natAbs) (hy : 64 ≤ y) :
+    2 ^ 64 ≤ (x ^ y).natAbs := by
+  rw [Int.natAbs_pow]
+  calc 2 ^ 64 ≤ 2 ^ y := Nat.pow_le_pow_right (by omega) hy
+    _ ≤ x.natAbs ^ y := Nat.pow_le_pow_left hx y
+
+open I64 in
+theorem neg_one_pow (n : Nat) : (-1 : Int) ^ n = if n % 2 = 0 then 1 else -1 := by
+  induction n with
+  | zero => simp
+  | succ k ih =>
+    rw [Int.pow_succ, ih]
+    by_cases h : k % 2 = 0
+    · have : (k + 1) % 2 ≠ 0 := by omega
+      simp [h, this]
+    · have : (k + 1) % 2 = 0 := by omega
+      simp [h, this]
+
+open I64 in
+/-- `Power` is the mathematical power whenever the exponent is a `u32` and the result fits;
+    otherwise the fault `IntOverflow` — the guarded definition of `I64.pow` never differs from it. -/
+theorem pow_spec (op : IntI) (x y : Int) :
+    I64.pow op x y =
+      if 0 ≤ y ∧ y < 2 ^ 32 ∧ fits (x ^ y.toNat) = true then .ok (Int64.ofInt (x ^ y.toNat))
+      else .error (.intOverflow op) := by
+  unfold I64.pow
+  have e32 : (2 : Int) ^ 32 = 4294967296 := by decide
+  simp only [e32]
+  by_cases hy : y < 0 ∨ y ≥ 4294967296
+  · have : ¬ (0 ≤ y ∧ y < 4294967296 ∧ fits (x ^ y.toNat) = true) := by omega
+    rw [if_pos hy, if_neg this]
+  · have hy0 : 0 ≤ y := by omega
+    have hy1 : y < 4294967296 := by omega
+    simp only [hy, if_false]
+    by_cases h0 : x = 0
+    · subst h0
+      by_cases hz : y = 0
+      · subst hz; simp [fits, minVal, maxVal]
+      · have : y.toNat ≠ 0 := by omega
+        simp [hz, Int.zero_pow this, fits, minVal, maxVal, hy0, hy1]
+    · by_cases h1 : x = 1
+      · subst h1; simp [fits, minVal, maxVal, hy0, hy1, Int.one_pow]
+      · by_cases hm : x = -1
+        · subst hm
+          simp only [h0, h1, if_false, if_true]
+          rw [neg_one_pow]
+          have e : (y % 2 = 0) ↔ (y.toNat % 2 = 0) := by omega
+          by_cases hp : y % 2 = 0
+          · have := e.mp hp; simp [hp, this, fits, minVal, maxVal, hy0, hy1]
+          · have : ¬ y.toNat % 2 = 0 := fun h => hp (e.mpr h)
+            simp [hp, this, fits, minVal, maxVal, hy0, hy1]
+        · simp only [h0, h1, hm, if_false]
+          have hx : 2 ≤ x.natAbs := by omega
+          by_cases h64 : y ≥ 64
+          · have hbig := two_pow_le_natAbs_pow x y.toNat hx (by omega)
+            have : fits (x ^ y.toNat) = false := by
+              unfold fits
+              rw [Bool.and_eq_false_iff]
+              simp only [minVal, maxVal]
+              simp
+              have hdis : x ^ y.toNat < -9223372036854775808 ∨ 9223372036854775807 < x ^ y.toNat := by omega
+              rcases hdis with h | h
+              · left; exact decide_eq_false (by omega)
+              · right; exact decide_eq_false (by omega)
+            simp [h64, this]
+          · simp only [h64, if_false, checked]
+            by_cases hf : fits (x ^ y.toNat) = true
+            · simp [hf, hy0, hy1]
+            · simp [hf]
+
 /-- arithmetic is top-op-second: the table's entries, literally -/
 theorem arith_table :
     Spec.sigInt .add = some (Spec.sInt2 fun x y => I64.checked .add (x.toInt + y.toInt)) ∧
